@@ -233,6 +233,10 @@ func genTypeSpec(r *Rand, v *IRView, depth int) *TypeSpec {
 		if sr := r.Side("map-index"); sr.Chance(1, 3) {
 			// `{[severity]: T}`: no parser produces it, a hand-written type can
 			t.Index = &TypeSpec{K: "enum", Values: []string{"low", "high"}}
+		} else if sr.Chance(1, 2) {
+			// a map keyed by a named object (`{[Severity]: T}`)
+			t.Index = &TypeSpec{K: "ref"}
+			_, t.Index.RefPkg, t.Index.RefName, _ = v.objTarget(sr, nil)
 		}
 	case k == 5 || k == 6:
 		t.K = "ref"
